@@ -11,7 +11,7 @@ from rv import ToolError, log
 # property -> [(suite, profile)]
 PLAN = {
     "C01": [("core", "dev"), ("ctl", "dev"), ("shape", "dev"), ("fit", "dev")],
-    "C03": [("shape", "dev"), ("core", "dev"), ("fit", "dev")],
+    "C03": [("shape", "dev"), ("core", "dev"), ("fit", "dev"), ("ctl", "dev")],
     "C04": [("sizes", "dev"), ("sizes", "release"), ("core", "dev"), ("ro", "dev")],
     "C05": [("reopen", "dev")],
     "C08": [("core", "dev"), ("ctl", "dev"), ("reopen", "dev")],
@@ -33,6 +33,8 @@ ALSO = {"C04": {"sizes": (("C01", None), ("C03", None)), "ro": (("C09", ("ab", "
         # closing": on the close/reopen histories these are the list-policy predicates (C10) and the disjointness from
         # ranges whose handles were given up at the close (filed under C13) of the allocation calls
         "C05": {"reopen": (("C10", ("ab", "at", "aa")), ("C13", ("ab", "at", "aa")), ("C01", ("ab", "at", "aa")))},
+        # "clear() ... reserved prefix untouched"
+        "C17": {"ctl": (("C16", ("clear",)),)},
         # the read-only clauses of C18 / C20 are judged by the read-only predicates (listed under C09) on the same events
         "C18": {"ro": (("C09", ("truncate",)),)},
         "C20": {"ro": (("C09", ("discard",)),)}}
